@@ -3,6 +3,8 @@
 package bind
 
 import (
+	"bytes"
+	"encoding/binary"
 	"fmt"
 	"reflect"
 
@@ -27,6 +29,28 @@ func BuildMsg(n *wire.N, h Hist) (util.Message, error) {
 		m, err := common.NewHello(4)
 		if err != nil {
 			return nil, err
+		}
+		// the API has no adder for hello elements: anything but the default element list is set
+		// through the exported fields, the way NewHelloElemVersionBitmap itself fills them
+		els, isDefault := n.L["Elements"], false
+		if len(els) == 1 && els[0].K == "hello_elem_versionbitmap" && bytes.Equal(els[0].B["Bitmaps"], []byte{0, 0, 0, 0x12}) {
+			isDefault = true
+		}
+		if !isDefault {
+			m.Elements = m.Elements[:0]
+			for _, e := range els {
+				if e.K != "hello_elem_versionbitmap" {
+					return nil, ErrNoAPI
+				}
+				el := common.NewHelloElemVersionBitmap()
+				el.Bitmaps = el.Bitmaps[:0]
+				bm := e.B["Bitmaps"]
+				for i := 0; i+4 <= len(bm); i += 4 {
+					el.Bitmaps = append(el.Bitmaps, binary.BigEndian.Uint32(bm[i:]))
+				}
+				el.Length = 4 + uint16(4*len(el.Bitmaps))
+				m.Elements = append(m.Elements, el)
+			}
 		}
 		return m, nil
 	case "echo_request":
